@@ -8,8 +8,10 @@ class Obligation:
     def __init__(self, name, harness, env=None, bounds=None, stubs=(), assumes=(), leverage="inputs",
                  max_paths=20000, path_wall_s=20.0, total_wall_s=None, query_timeout_ms=20000,
                  witness_every=1, replay=None, expect_labels=None, conc_env=None, kind="symx", fast_fp=False,
-                 witness_violations=False):
+                 witness_violations=False, crash_is_violation=None):
         self.fast_fp = fast_fp
+        # label to report when the worker is killed by a signal while driving the compiled extension for this obligation
+        self.crash_is_violation = crash_is_violation
         # a witness replay that fails an assertion the symbolic run passed is, by construction, a reproduced violation of the
         # oracle on the real build (used where part of the code is only reachable concretely, e.g. the DSL's character lexer)
         self.witness_violations = witness_violations
